@@ -53,6 +53,7 @@ type Val struct {
 	bindings []*Val
 	mapFrozen   bool   // the map held in this location never has its entries' objects modified (declared field invariant)
 	frozenIn    string // this pointer was read from a frozen registry: the presence term of that lookup
+	sharedObj   string // this address lies inside an object of a `sharedconfig` type, outside its guarded fields: the object
 	mapDistinct bool // the map held in this location keeps one value object per key (declared field invariant)
 	mapNonNil bool  // the map held in this location stores only non-nil values (declared field invariant)
 	guard    string // lock identity that must be held to use this location / map (guardedby)
@@ -138,6 +139,7 @@ type Unit struct {
 	globalInvsUsed []string
 	alloc0      string
 	locksUsed   bool
+	servesRequest bool // the unit has a http.ResponseWriter or *http.Request parameter: it runs once per request, concurrently
 	frozenHeaps   map[string]*types.Map // pointee heaps of "frozen" registries -> the registry's map type
 	rebinds       []string // clause locals bound by type after a rename, anchors and invariants found in inlined helpers (reported in the evidence)
 	globalAddr    map[string]string // addresses of package variables whose address was taken
@@ -376,6 +378,7 @@ type frame struct {
 	lets     *[][2]string // let bindings of the enclosing quantifier body
 	parent   *frame          // the frame this one is inlined into (nil for the unit's own function)
 	via      ssa.Instruction // the call instruction of parent that was inlined
+	done     []*frame        // inlined callees of this frame that have returned
 	cur      ssa.Instruction // instruction being executed
 	pendingNewLoop bool
 	loopMapDone    bool
